@@ -155,6 +155,7 @@ pub const ALL_KINDS: &[&str] = &[
     "cond-literal",
     "call-non-fn",
     "void-store",
+    "generic",
 ];
 
 pub fn family_of(kind: &str) -> &'static str {
@@ -167,6 +168,7 @@ pub fn family_of(kind: &str) -> &'static str {
         "list-hetero" => "list",
         "call-non-fn" => "non-function",
         "void-store" => "void",
+        "generic" => "generic",
         _ => "other",
     }
 }
@@ -587,6 +589,38 @@ pub fn make(kind: &'static str, want: Option<&Ty>, env: &Env, s: &mut Sel) -> Op
                 )),
                 _ => Some(plant(kind, "zq1 := 1\nzq1 = print(1)".into(), "zq1 := 1\nzq1 = 2".into(), Form::Stmt)),
             }
+        }
+        "generic" => {
+            // the same type variable instantiated with two different types (own annotated functions and the standard
+            // library's generic signatures); (bad, good, needs an impure context)
+            if want.is_some() || !env.stmts {
+                return None;
+            }
+            const G: &[(&str, &str, bool)] = &[
+                ("zq1 :: pu p: (*a, *a) -> *a do p[0] end\nzq2 :: zq1((1, \"s\"))", "zq1 :: pu p: (*a, *a) -> *a do p[0] end\nzq2 :: zq1((1, 2))", false),
+                ("zq1 :: pu a: *t, b: *t -> *t do a end\nzq2 :: zq1(1, \"s\")", "zq1 :: pu a: *t, b: *t -> *t do a end\nzq2 :: zq1(1, 2)", false),
+                ("zq1 :: pu a: *t, b: [*t] -> *t do a end\nzq2 :: zq1(1, [\"s\"])", "zq1 :: pu a: *t, b: [*t] -> *t do a end\nzq2 :: zq1(1, [2])", false),
+                ("zq1 :: pu a: [*t], b: (*t, int) -> int do 1 end\nzq2 :: zq1([1], (\"s\", 1))", "zq1 :: pu a: [*t], b: (*t, int) -> int do 1 end\nzq2 :: zq1([1], (2, 1))", false),
+                ("zq1 :: pu a: *t -> *t do a end\nzq2: str : zq1(1)", "zq1 :: pu a: *t -> *t do a end\nzq2: int : zq1(1)", false),
+                ("zq1 :: pu a: (*t, *u) -> *u do a[1] end\nzq2: int : zq1((1, \"s\"))", "zq1 :: pu a: (*t, *u) -> *u do a[1] end\nzq2: str : zq1((1, \"s\"))", false),
+                ("zq2: dict.Dict(str, int) : dict.from_list([(\"a\", \"b\")])", "zq2: dict.Dict(str, int) : dict.from_list([(\"a\", 1)])", false),
+                ("list.push([1], \"s\")", "list.push([1], 2)", true),
+                ("zq2: [int] : map([1], pu x: int -> str do \"a\" end)", "zq2: [int] : map([1], pu x: int -> int do 1 end)", false),
+                ("zq2 :: fold([1], \"s\", pu x: int, a: int -> int do a end)", "zq2 :: fold([1], 0, pu x: int, a: int -> int do a end)", false),
+                ("zq2: Maybe(int) : Maybe.Just \"s\"", "zq2: Maybe(int) : Maybe.Just 1", false),
+                ("zq1 :: pu a: Maybe(*t), b: *t -> *t do b end\nzq2 :: zq1(Maybe.Just 1, \"s\")", "zq1 :: pu a: Maybe(*t), b: *t -> *t do b end\nzq2 :: zq1(Maybe.Just 1, 2)", false),
+                (
+                    "zq1 :: pu f: (pu *t -> *t), a: *t -> *t do f(a) end\nzq2 :: zq1(pu x: int -> int do x end, \"s\")",
+                    "zq1 :: pu f: (pu *t -> *t), a: *t -> *t do f(a) end\nzq2 :: zq1(pu x: int -> int do x end, 2)",
+                    false,
+                ),
+                ("zq2: dict.Dict(int, int) : dict.new()\ndict.update(zq2, \"k\", 1)", "zq2: dict.Dict(int, int) : dict.new()\ndict.update(zq2, 1, 1)", true),
+                ("zq2: set.Set(int) : set.from_list([\"a\"])", "zq2: set.Set(int) : set.from_list([1])", false),
+                ("zq2: [(int, str)] : [(1, \"a\"), (2, 3)]", "zq2: [(int, str)] : [(1, \"a\"), (2, \"b\")]", false),
+            ];
+            let usable: Vec<&(&str, &str, bool)> = G.iter().filter(|g| !(g.2 && env.pure_)).collect();
+            let g = *s.pick(&usable);
+            Some(plant(kind, g.0.to_string(), g.1.to_string(), Form::Stmt))
         }
         _ => None,
     }
